@@ -1,11 +1,488 @@
+// h_c07 (part): thorough-tier soak. Three real meta services (meta.Service: HTTP handler,
+// store, hashicorp/raft over loopback, boltdb + file snapshots in temp directories) are
+// joined into one cluster; commands are POSTed as raw protobuf to /execute (so the exact
+// committed commands are known), interleaved with forced raft snapshots, restarts of single
+// nodes and restarts of the whole cluster. Faults happen only while no command is in
+// flight, so every command is either acknowledged or certainly not proposed; a run in which
+// that cannot be told (ambiguous HTTP failure, cluster that does not settle in time) is
+// counted as inconclusive and emits nothing.
+// After quiescence every node's metadata is compared with the model applied, from the
+// metadata observed after cluster formation, to the acknowledged commands.
 package main
 
-import "verifharness/hx"
+import (
+	"bytes"
+	"encoding/json"
+	"fmt"
+	"io"
+	"log"
+	"net"
+	"net/http"
+	"net/url"
+	"os"
+	"strings"
+	"time"
 
-// placeholder, replaced below when the soak is built
-type SoakDesc struct {
-	Seed uint64 `json:"seed"`
+	"github.com/influxdata/influxdb/services/meta"
+	"github.com/influxdata/influxdb/tcp"
+	"verifharness/hx"
+)
+
+type SoakOp struct {
+	Op   string `json:"op"` // "cmd" | "snapshot" | "restart" | "restartall"
+	Cmd  *Cmd   `json:"cmd,omitempty"`
+	Node int    `json:"node,omitempty"`
 }
 
-func runSoak(o *hx.Out, d SoakDesc, origin string) {}
-func genSoak(o *hx.Out, r *hx.Rand)                {}
+type SoakDesc struct {
+	Ops []SoakOp `json:"ops"`
+}
+
+type soakNode struct {
+	cfg *meta.Config
+	svc *meta.Service
+	ln  net.Listener
+	err chan error
+}
+
+func freePort() string {
+	l, err := net.Listen("tcp", "127.0.0.1:0")
+	if err != nil {
+		panic(err)
+	}
+	defer l.Close()
+	return l.Addr().String()
+}
+
+func (n *soakNode) start() error {
+	ln, err := net.Listen("tcp", n.cfg.BindAddress)
+	if err != nil {
+		return err
+	}
+	mux := tcp.NewMux()
+	mux.Logger = log.New(io.Discard, "", 0)
+	s := meta.NewService(n.cfg)
+	s.RaftListener = mux.Listen(meta.MuxHeader)
+	go mux.Serve(ln)
+	n.svc, n.ln = s, ln
+	n.err = make(chan error, 1)
+	go func(ch chan error) { ch <- s.Open() }(n.err)
+	return nil
+}
+
+func (n *soakNode) stop() {
+	if n.svc != nil {
+		func() {
+			defer func() { recover() }()
+			n.svc.Close()
+		}()
+		n.ln.Close()
+		n.svc = nil
+	}
+}
+
+func (n *soakNode) data() *meta.Data {
+	if n.svc == nil {
+		return nil
+	}
+	var d *meta.Data
+	func() {
+		defer func() { recover() }()
+		d, _ = n.svc.VerifData()
+	}()
+	return d
+}
+
+func waitFor(timeout time.Duration, cond func() bool) bool {
+	end := time.Now().Add(timeout)
+	for time.Now().Before(end) {
+		if cond() {
+			return true
+		}
+		time.Sleep(50 * time.Millisecond)
+	}
+	return cond()
+}
+
+// settled: all running nodes have a leader among them, the same Index and the same dump
+func settled(ns []*soakNode) bool {
+	leader := false
+	var first string
+	for i, n := range ns {
+		d := n.data()
+		if d == nil {
+			return false
+		}
+		func() {
+			defer func() { recover() }()
+			if n.svc.VerifIsLeader() {
+				leader = true
+			}
+		}()
+		s := coqData(d, false)
+		if i == 0 {
+			first = s
+		} else if s != first {
+			return false
+		}
+	}
+	return leader
+}
+
+// minimal decoder of internal.Response{OK=1 bool, Error=2 string, Index=3 uint64}
+func decodeResponse(b []byte) (errStr string, index uint64, ok bool) {
+	i := 0
+	rv := func() (uint64, bool) {
+		var v uint64
+		for s := uint(0); i < len(b); s += 7 {
+			c := b[i]
+			i++
+			v |= uint64(c&0x7f) << s
+			if c&0x80 == 0 {
+				return v, true
+			}
+		}
+		return 0, false
+	}
+	for i < len(b) {
+		k, good := rv()
+		if !good {
+			return "", 0, false
+		}
+		switch k & 7 {
+		case 0:
+			v, good := rv()
+			if !good {
+				return "", 0, false
+			}
+			if k>>3 == 3 {
+				index = v
+			}
+		case 2:
+			l, good := rv()
+			if !good || i+int(l) > len(b) {
+				return "", 0, false
+			}
+			if k>>3 == 2 {
+				errStr = string(b[i : i+int(l)])
+			}
+			i += int(l)
+		default:
+			return "", 0, false
+		}
+	}
+	return errStr, index, true
+}
+
+type soakStep struct {
+	Cmd   Cmd
+	Index uint64
+	Err   string
+}
+
+// post sends the command to the current leader. definite=false: cannot tell whether it was proposed.
+func post(ns []*soakNode, b []byte) (errStr string, index uint64, acked bool, definite bool) {
+	last := "no leader"
+	for attempt := 0; attempt < 100; attempt++ {
+		var leader *soakNode
+		for _, n := range ns {
+			if n.svc == nil {
+				continue
+			}
+			func() {
+				defer func() { recover() }()
+				if n.svc.VerifIsLeader() {
+					leader = n
+				}
+			}()
+		}
+		if leader == nil {
+			time.Sleep(100 * time.Millisecond)
+			continue
+		}
+		cl := &http.Client{Timeout: 20 * time.Second, Transport: &http.Transport{DisableKeepAlives: true}, CheckRedirect: func(*http.Request, []*http.Request) error { return http.ErrUseLastResponse }}
+		resp, err := cl.Post("http://"+leader.cfg.HTTPBindAddress+"/execute", "application/octet-stream", bytes.NewReader(b))
+		if err != nil {
+			if strings.Contains(err.Error(), "connection refused") {
+				last = err.Error()
+				time.Sleep(100 * time.Millisecond)
+				continue // not delivered
+			}
+			return "transport: " + err.Error(), 0, false, false
+		}
+		body, rerr := io.ReadAll(resp.Body)
+		resp.Body.Close()
+		switch {
+		case resp.StatusCode == http.StatusOK && rerr == nil:
+			es, idx, good := decodeResponse(body)
+			if !good {
+				return "", 0, false, false
+			}
+			if strings.Contains(es, "leadership lost") || strings.Contains(es, "timed out") || strings.Contains(es, "shutdown") {
+				return es, 0, false, false
+			}
+			if strings.Contains(es, "not the leader") || strings.Contains(es, "node is not the leader") {
+				last = es
+				time.Sleep(100 * time.Millisecond)
+				continue // raft.ErrNotLeader: not proposed
+			}
+			if idx == 0 {
+				// a command the FSM rejected is answered without the index: it is the index the
+				// leader's metadata was stamped with (commands are sent one at a time)
+				if dd := leader.data(); dd != nil {
+					idx = dd.Index
+				}
+			}
+			return es, idx, true, true
+		case resp.StatusCode == http.StatusTemporaryRedirect || resp.StatusCode == http.StatusServiceUnavailable:
+			last = fmt.Sprintf("http %d %s", resp.StatusCode, body)
+			time.Sleep(100 * time.Millisecond)
+			continue // not the leader / no leader: not proposed
+		case resp.StatusCode == http.StatusBadRequest:
+			return string(body), 0, false, true // rejected by validateCommand: never proposed
+		default:
+			return fmt.Sprintf("http %d: %s", resp.StatusCode, body), 0, false, false
+		}
+	}
+	return "not proposed after 100 attempts: " + last, 0, false, false
+}
+
+func runSoak(o *hx.Out, d SoakDesc, origin string) {
+	o.Begin("soak", d)
+	inconclusive := func(why string) { o.Count("soak:inconclusive:" + why) }
+	ns := make([]*soakNode, 3)
+	defer func() {
+		for _, n := range ns {
+			if n != nil {
+				n.stop()
+				os.RemoveAll(n.cfg.Dir)
+			}
+		}
+	}()
+	var https []string
+	for i := range ns {
+		c := meta.NewConfig()
+		c.BindAddress = freePort()
+		c.HTTPBindAddress = freePort()
+		dir, err := os.MkdirTemp("", "h_c07_soak")
+		if err != nil {
+			panic(err)
+		}
+		c.Dir = dir
+		c.LoggingEnabled = false
+		ns[i] = &soakNode{cfg: c}
+		https = append(https, c.HTTPBindAddress)
+		if err := ns[i].start(); err != nil {
+			inconclusive("listen")
+			return
+		}
+	}
+	time.Sleep(1500 * time.Millisecond)
+	for _, peer := range https {
+		joined := false
+		for try := 0; try < 20 && !joined; try++ {
+			resp, err := http.PostForm("http://"+https[0]+"/join", url.Values{"addr": {peer}})
+			if err == nil {
+				io.Copy(io.Discard, resp.Body)
+				resp.Body.Close()
+				joined = resp.StatusCode == http.StatusOK
+			}
+			if !joined {
+				time.Sleep(300 * time.Millisecond)
+			}
+		}
+		if !joined {
+			inconclusive("join")
+			return
+		}
+	}
+	formed := waitFor(30*time.Second, func() bool {
+		if !settled(ns) {
+			return false
+		}
+		return len(ns[0].data().MetaNodes) == 3
+	})
+	if !formed {
+		inconclusive("formation")
+		return
+	}
+	s0 := coqData(ns[0].data(), false)
+	var shadow *meta.VerifFSM
+	if os.Getenv("H_C07_SOAK_DEBUG") != "" {
+		shadow = meta.NewVerifFSM(true)
+		img, _ := ns[0].data().MarshalBinary()
+		shadow.Restore(img)
+	}
+	var steps []soakStep
+	faults, snaps := 0, 0
+	for _, op := range d.Ops {
+		switch op.Op {
+		case "cmd":
+			es, idx, acked, definite := post(ns, encode(*op.Cmd))
+			if !definite {
+				fmt.Fprintf(os.Stderr, "soak: ambiguous response to %s: %q\n", op.Cmd.K, es)
+				inconclusive("ambiguous-response")
+				return
+			}
+			if !acked {
+				o.Count("soak:cmd-rejected-before-raft")
+				continue
+			}
+			steps = append(steps, soakStep{Cmd: *op.Cmd, Index: idx, Err: es})
+			if shadow != nil {
+				v := shadow.Apply(idx, 1, encode(*op.Cmd))
+				waitFor(5*time.Second, func() bool { return settled(ns) })
+				if stripStamp(shadow.Data()) != stripStamp(ns[0].data()) || shadow.Data().Index != ns[0].data().Index {
+					fmt.Fprintf(os.Stderr, "soak debug: divergence after %s (resp idx %d err %q, shadow err %v)\nshadow: %s\nnode0:  %s\n", op.Cmd.K, idx, es, v, coqData(shadow.Data(), false), coqData(ns[0].data(), false))
+					shadow = nil
+				}
+			}
+			o.Count("soak:cmd:" + op.Cmd.K)
+		case "snapshot":
+			n := ns[op.Node%3]
+			if n.svc != nil {
+				if err := n.svc.VerifForceSnapshot(); err == nil {
+					snaps++
+					o.Count("soak:snapshot-taken")
+				} else {
+					o.Count("soak:snapshot-skipped")
+				}
+			}
+		case "restart":
+			if !waitFor(20*time.Second, func() bool { return settled(ns) }) {
+				inconclusive("not-settled-before-restart")
+				return
+			}
+			n := ns[op.Node%3]
+			n.stop()
+			time.Sleep(300 * time.Millisecond)
+			if err := n.start(); err != nil {
+				inconclusive("relisten")
+				return
+			}
+			faults++
+			o.Count("soak:restart-one")
+			if !waitFor(40*time.Second, func() bool { return settled(ns) }) {
+				inconclusive("not-settled-after-restart")
+				return
+			}
+		case "restartall":
+			if !waitFor(20*time.Second, func() bool { return settled(ns) }) {
+				inconclusive("not-settled-before-restart")
+				return
+			}
+			for _, n := range ns {
+				n.stop()
+			}
+			time.Sleep(500 * time.Millisecond)
+			for _, n := range ns {
+				if err := n.start(); err != nil {
+					inconclusive("relisten")
+					return
+				}
+			}
+			faults++
+			o.Count("soak:restart-all")
+			if !waitFor(60*time.Second, func() bool { return settled(ns) }) {
+				inconclusive("not-settled-after-restart")
+				return
+			}
+		}
+	}
+	// quiescence: same index everywhere
+	waitFor(30*time.Second, func() bool {
+		var idx uint64
+		for i, n := range ns {
+			dd := n.data()
+			if dd == nil {
+				return false
+			}
+			if i == 0 {
+				idx = dd.Index
+			} else if dd.Index != idx {
+				return false
+			}
+		}
+		return len(steps) == 0 || idx >= steps[len(steps)-1].Index
+	})
+	var finals []string
+	var term uint64
+	same := true
+	for i, n := range ns {
+		dd := n.data()
+		if dd == nil {
+			inconclusive("node-down-at-end")
+			return
+		}
+		if i == 0 {
+			term = dd.Term
+		}
+		finals = append(finals, "("+coqData(dd, false)+")")
+		if coqData(dd, true) != coqData(ns[0].data(), true) {
+			same = false
+		}
+	}
+	var ss []string
+	for _, st := range steps {
+		ss = append(ss, fmt.Sprintf("(%d, %d, %s)", st.Index, term, coqCmd(st.Cmd)))
+	}
+	coq := fmt.Sprintf("CSoak true (%s) %s %s", s0, hx.CoqList(ss), hx.CoqList(finals))
+	js, _ := json.Marshal(d)
+	o.Emit(hx.Case{Kind: "soak", Coq: coq, Desc: d,
+		Obs:        map[string]interface{}{"acked": len(steps), "faults": faults, "snapshots": snaps, "nodes_agree": same},
+		Nontrivial: len(steps) >= 10 && faults > 0 && snaps > 0, Sig: fmt.Sprintf("soak:%x", hashBytes(js)), Origin: origin})
+}
+
+func genSoak(o *hx.Out, r *hx.Rand) {
+	g := &gen{r: r, base: 1600000000000000000 + int64(r.Intn(1000))*int64(time.Hour)}
+	shadow := meta.NewVerifFSM(true)
+	var d SoakDesc
+	idx := uint64(1)
+	add := func(c Cmd) {
+		cc := c
+		d.Ops = append(d.Ops, SoakOp{Op: "cmd", Cmd: &cc})
+		applyCmd(shadow, c)
+	}
+	for k := 0; k < 3; k++ {
+		idx++
+		add(Cmd{K: "CreateDataNode", Idx: idx, Term: 1, S: []string{httpPool[k], hostPool[k]}})
+	}
+	idx++
+	add(Cmd{K: "CreateDatabase", Idx: idx, Term: 1, S: []string{"db0"}})
+	idx++
+	add(Cmd{K: "CreateRetentionPolicy", Idx: idx, Term: 1, S: []string{"db0", "rp0"}, U: []uint64{2}, I: []int64{0, int64(time.Hour)}, B: []bool{true}})
+	n := 40 + r.Intn(30)
+	for len(d.Ops) < n {
+		switch w := r.Intn(100); {
+		case w < 8:
+			d.Ops = append(d.Ops, SoakOp{Op: "snapshot", Node: r.Intn(3)})
+		case w < 12:
+			d.Ops = append(d.Ops, SoakOp{Op: "restart", Node: r.Intn(3)})
+		case w < 14:
+			d.Ops = append(d.Ops, SoakOp{Op: "restartall"})
+		default:
+			idx++
+			c := g.next(shadow.Data(), idx, 1)
+			// no wall-clock dependent pruning, no raft membership change, sane timestamps
+			// (timestamps near MinInt64 are the open finding C07:group-start-before-int64-range)
+			if c.K == "PruneShardGroups" || c.K == "RemovePeer" {
+				continue
+			}
+			if (c.K == "CreateShardGroup" || c.K == "TruncateShardGroups") && c.I[0] < 0 {
+				c.I[0] = g.base
+			}
+			c.AgeA, c.AgeB = false, false
+			add(c)
+		}
+	}
+	// make sure the interesting path is taken at least once: snapshot, more commands, full restart
+	d.Ops = append(d.Ops, SoakOp{Op: "snapshot", Node: 0}, SoakOp{Op: "snapshot", Node: 1})
+	for k := 0; k < 3; k++ {
+		idx++
+		add(Cmd{K: "CreateShardGroup", Idx: idx, Term: 1, S: []string{"db0", "rp0"}, I: []int64{g.base + int64(k+20)*int64(time.Hour)}})
+	}
+	d.Ops = append(d.Ops, SoakOp{Op: "restartall"})
+	idx++
+	add(Cmd{K: "CreateDatabase", Idx: idx, Term: 1, S: []string{"db2"}})
+	runSoak(o, d, "gen")
+}
